@@ -52,8 +52,13 @@ def cases(tier, seed):
     for mode in ('S', 'N'):
         for sc in ('T1', 'T2'):
             for grid in ([1, 2], [2, 1], [1, 3]):
-                out.append({'kind': 'sched', 'scenario': sc, 'grid': grid, 'mode': mode,
-                            'bound': None if grid[0] * grid[1] == 2 else (3 if tier == 'quick' else 5), 'cost': 400})
+                if grid[0] * grid[1] == 2:
+                    out.append({'kind': 'sched', 'scenario': sc, 'grid': grid, 'mode': mode, 'bound': None, 'cost': 400})
+                elif tier == 'quick':
+                    out.append({'kind': 'sched', 'scenario': sc, 'grid': grid, 'mode': mode, 'bound': 3, 'cost': 400})
+                else:
+                    for part in range(8):       # 4 deviations on 3 ranks: about 6*10^4 executions, split over 8 cases
+                        out.append({'kind': 'sched', 'scenario': sc, 'grid': grid, 'mode': mode, 'bound': 4, 'part': part, 'nparts': 8, 'cost': 400})
     for grid in [[1, 2], [2, 1]] + ([[2, 2]] if tier == "thorough" else []):
         for mode in ('S', 'N'):
             out.append({'kind': 'clock', 'grid': grid, 'mode': mode, 'steps': 2, 'cost': 900})
@@ -68,7 +73,11 @@ def cases(tier, seed):
             out.append({'kind': 'routes', 'k': k, 'mask': None, 'bound': None, 'cost': 30})
     real = ['perm3-22', 'perm3-12', 'perm3-21', 'phys', 'swapper', 'cycle6', 'chain5', 'perm3-1d', 'cycle5', 'theta6']
     for nm in real:
-        out.append({'kind': 'routes-real', 'name': nm, 'bound': 2 if tier == 'quick' else 4, 'orders': 60 if tier == 'quick' else 720, 'cost': 400})
+        if tier == 'quick':
+            out.append({'kind': 'routes-real', 'name': nm, 'bound': 2, 'orders': 60, 'part': 0, 'nparts': 1, 'cost': 400})
+        else:
+            for part in range(12):
+                out.append({'kind': 'routes-real', 'name': nm, 'bound': 3, 'orders': 240, 'part': part, 'nparts': 12, 'cost': 400})
     if tier == 'thorough':
         edges5 = list(itertools.combinations(range(5), 2))
         for mask in range(0, 1 << len(edges5)):
@@ -299,7 +308,7 @@ def _explore_scenario(case):
         roots = explore.roots_for_part(run, case['part'], case['nparts'])
         traces.clear()
         npoints[0] = 0
-    st = explore.explore(run, bound=case['bound'], on_exec=on_exec, max_exec=20000, roots=roots)
+    st = explore.explore(run, bound=case['bound'], on_exec=on_exec, max_exec=60000, roots=roots)
     if len(traces) > 1:
         a, b = list(traces.values())[:2]
         diff = next(((r, i, x, y) for r in range(len(a)) for i, (x, y) in enumerate(itertools.zip_longest(a[r], b[r])) if x != y), None)
@@ -506,7 +515,7 @@ def _routes_real(case):
     orders = list(itertools.permutations(names))
     step = max(1, len(orders) // case['orders'])
     enumerated = {}
-    for order in orders[::step]:
+    for order in orders[::step][case.get('part', 0)::case.get('nparts', 1)]:
         direct = _direct_from(list(order), edges)
         results = set()
         stats = {}
